@@ -46,6 +46,21 @@ from .panic import guarded_sub
 
 def to_string_role(facts):
     c = [b for b in facts.fns() if b.kind == "fn" and facts.items.get(b.key, {}).get("inputs") == ["&serde_json::Value"] and facts.items[b.key].get("output") == "std::string::String"]
+    if len(c) > 1:
+        # private helpers of the same signature (`element_to_string`): the string form is the one the others are
+        # helpers of — the externally visible one, else the one every other candidate is reachable from while it is
+        # itself called from outside the candidates
+        pub = [b for b in c if facts.items.get(b.key, {}).get("exported")]
+        if len(pub) == 1:
+            return pub[0]
+        keys = {b.key for b in c}
+        outer = []
+        for b in c:
+            callers = {o.key.split("::{closure#", 1)[0] for o in facts.fns() for _, t in o.calls() if callee_of(t) and callee_of(t).get("key") == b.key}
+            if callers - keys and all(o.key in facts.reach([b.key]) for o in c):
+                outer.append(b)
+        if len(outer) == 1:
+            return outer[0]
     if len(c) != 1:
         raise Inconclusive("shared string-form function (&Value) → String not identified (%d)" % len(c))
     return c[0]
